@@ -29,6 +29,7 @@ type hstate struct {
 	iters    []elemIter
 	iterTys  []*Ty
 	iterNext []uint64
+	litCount int
 	snaps []snapshot
 	h     tree.HashFn
 	count *int
@@ -75,6 +76,11 @@ func (s *hstate) resolve(x srcSpec) (view.View, error) {
 	case "dflt":
 		return x.t.Def().Default(nil), nil
 	case "lit":
+		// every other literal comes from an independently built (identical) type definition
+		s.litCount++
+		if s.litCount%2 == 0 && isComposite(x.t) {
+			return buildViewFresh(x.t, x.v)
+		}
 		return buildView(x.t, x.v)
 	case "h":
 		if x.h >= len(s.views) {
